@@ -789,6 +789,26 @@ fn sweep(st: &dyn BlobStore, ever: &HashSet<RecordId>, shadow: &HashMap<RecordId
     match guarded(|| st.len()) { Ok(n) if n == shadow.len() => None, Ok(n) => Some(format!("len() = {} but {} records are live", n, shadow.len())), Err(p) => Some(format!("len panicked: {}", p)) }
 }
 
+/// The comparison made right after a refused operation (the shadow is unchanged by it): all ids ever issued (at most the 120
+/// oldest and 120 newest of them), the ids the operation named and their neighbours, ids never issued, len(), iter_ids.
+fn after_refusal(st: &dyn DynStore, named: &[RecordId], ever: &HashSet<RecordId>, shadow: &HashMap<RecordId, Vec<u8>>) -> Option<String> {
+    let mut ids: Vec<RecordId> = ever.iter().copied().collect(); ids.sort();
+    let mx = ids.last().copied().unwrap_or(0);
+    if ids.len() > 240 { let tail = ids.split_off(ids.len() - 120); ids.truncate(120); ids.extend(tail); }
+    for &n in named { ids.push(n); ids.push(n.wrapping_add(1)); ids.push(n.wrapping_sub(1)); }
+    ids.extend([0u32, mx.wrapping_add(1), u32::MAX]);
+    ids.sort(); ids.dedup();
+    for id in ids { if let Some(m) = probe(st.bs_ref(), id, shadow) { return Some(m); } }
+    match guarded(|| st.bs_ref().len()) { Ok(n) if n == shadow.len() => {}, Ok(n) => return Some(format!("len() = {} but {} records are live", n, shadow.len())), Err(p) => return Some(format!("len panicked: {}", p)) }
+    match guarded(|| st.iter_ids_dyn()) {
+        Err(p) => return Some(format!("iter_ids panicked: {}", p)),
+        Ok(None) => {}
+        Ok(Some(mut got)) => { got.sort(); let mut want: Vec<RecordId> = shadow.keys().copied().collect(); want.sort();
+            if got != want { return Some(format!("iter_ids lists {} ids but {} records are live (first difference at {:?})", got.len(), want.len(), got.iter().zip(want.iter()).find(|(a, b)| a != b))); } }
+    }
+    None
+}
+
 /// Finding classes of the unchanged tree (decidable predicates on the case, see findings/C03.txt).
 fn history_class(_spec: &str, _detail: &str) -> Option<&'static str> { None }
 
@@ -944,6 +964,8 @@ fn run_history(cx: &mut Ctx, case: &Value, force_coq: bool) {
     'ops: for (k, op) in ops.iter().enumerate() {
         let name = op[0].as_str().unwrap_or("");
         let mut fail = |m: String| { Some(format!("op #{} {}: {}", k, op, m)) };
+        // Some(what): the operation was refused (Err); the store is then compared with the unchanged shadow in full
+        let mut refused: Option<(&'static str, Vec<RecordId>)> = None;
         match name {
             "put" => {
                 let data = rec_bytes(&op[1]);
@@ -954,7 +976,7 @@ fn run_history(cx: &mut Ctx, case: &Value, force_coq: bool) {
                     Err(p) => { failure = fail(format!("put panicked: {}", p)); break 'ops; }
                     Ok(Err(e)) => { if !put_may_refuse(&spec, &data) && !finalized { failure = fail(format!("put of a {}-byte record refused: {}", data.len(), e)); break 'ops; }
                                     xt!(|x: &mut XTrace| { x.absorb(&[], false); x.spec_too = false; x.push(format!("XO (MPut {})", coq_bytes(&data)), "[]%N".into()); });
-                                    cx.sum.dist("put_refused_allowed"); }
+                                    cx.sum.dist("put_refused_allowed"); refused = Some(("put", vec![])); }
                     Ok(Ok(id)) => {
                         if shadow.contains_key(&id) { failure = fail(format!("put returned id {} which is the id of another live record", id)); break 'ops; }
                         coq_ops.push(format!("MPut {}", coq_bytes(&data)));
@@ -972,7 +994,8 @@ fn run_history(cx: &mut Ctx, case: &Value, force_coq: bool) {
                 let rc = recs.clone();
                 match guarded(|| st.put_batch_dyn(rc)) {
                     Err(p) => { failure = fail(format!("put_batch panicked: {}", p)); break 'ops; }
-                    Ok(Err(_)) if finalized => { xt!(|x: &mut XTrace| x.ok = false); }
+                    // put_batch need not be atomic (see design): only ids the shadow knows are judged after the refusal
+                    Ok(Err(_)) if finalized => { xt!(|x: &mut XTrace| x.ok = false); refused = Some(("put_batch", vec![])); }
                     Ok(Err(e)) => { failure = fail(format!("put_batch refused: {}", e)); break 'ops; }
                     Ok(Ok(ids)) => {
                         if ids.len() != recs.len() { failure = fail(format!("put_batch of {} records returned {} ids", recs.len(), ids.len())); break 'ops; }
@@ -1020,6 +1043,7 @@ fn run_history(cx: &mut Ctx, case: &Value, force_coq: bool) {
                     Err(p) => { failure = fail(format!("remove({}) panicked: {}", id, p)); break 'ops; }
                     Ok(Ok(())) => { shadow.remove(&id); removed_any = true; obs.push("[1]%N".into()); xt!(|x: &mut XTrace| { x.absorb(&[], false); x.push(format!("XO (MRemove {})", id), "[1]%N".into()); }); }
                     Ok(Err(e)) => { if live && supports_remove(&spec) && !finalized { failure = fail(format!("remove({}) of a live record failed: {}", id, e)); break 'ops; } obs.push("[0]%N".into());
+                                    refused = Some(("remove", vec![id]));
                                     xt!(|x: &mut XTrace| { x.absorb(&[], false); if live { x.spec_too = false; } x.push(format!("XO (MRemove {})", id), "[0]%N".into()); }); }
                 }
                 coq_ops.push(format!("MRemove {}", id));
@@ -1065,7 +1089,8 @@ fn run_history(cx: &mut Ctx, case: &Value, force_coq: bool) {
                     let idc = ids.clone();
                     match guarded(|| st.get_batch_dyn(idc)) {
                         Err(p) => { failure = fail(format!("get_batch panicked: {}", p)); break 'ops; }
-                        Ok(Err(e)) => { if ids.iter().all(|i| shadow.contains_key(i)) { failure = fail(format!("get_batch({:?}) of live records failed: {}", ids, e)); break 'ops; } xt!(|x: &mut XTrace| x.ok = false); }
+                        Ok(Err(e)) => { if ids.iter().all(|i| shadow.contains_key(i)) { failure = fail(format!("get_batch({:?}) of live records failed: {}", ids, e)); break 'ops; } xt!(|x: &mut XTrace| x.ok = false);
+                                        refused = Some(("get_batch", ids.clone())); }
                         Ok(Ok(v)) => {
                             xt!(|x: &mut XTrace| { x.absorb(&[], false); x.push(format!("XGetBatch {}", coq_n_list(ids.iter().map(|&i| i as u128))),
                                 coq_n_list(v.iter().flat_map(|g| match g { Some(d) => { let mut o = vec![1u128, d.len() as u128]; o.extend(d.iter().map(|&b| b as u128)); o } None => vec![0u128] }))); });
@@ -1087,6 +1112,7 @@ fn run_history(cx: &mut Ctx, case: &Value, force_coq: bool) {
             "get" | "has" | "size" => {
                 let id = resolve(&op[1], &issued);
                 if let Some(m) = probe(st.bs_ref(), id, &shadow) { failure = fail(m); break 'ops; }
+                if !shadow.contains_key(&id) { refused = Some(("get", vec![id])); }
                 // the model is asked the same three questions
                 coq_ops.push(format!("MQuery {}", id));
                 obs.push(obs_of(shadow.get(&id)));
@@ -1215,6 +1241,13 @@ fn run_history(cx: &mut Ctx, case: &Value, force_coq: bool) {
                 if let Some(m) = sweep(st.bs_ref(), &ever, &shadow) { failure = fail(format!("after finalize: {}", m)); break 'ops; }
             }
             _ => {}
+        }
+        // a refused operation changes nothing: every id ever issued (a window of them in the many-record histories), the id the
+        // operation named, ids never issued, len() and the store's own iteration answer as the unchanged shadow says
+        if let Some((what, named)) = refused {
+            cx.sum.dist(&format!("refused_then_compared:{}", what));
+            if k + 1 < ops.len() { cx.sum.dist("refused_mid_history"); }
+            if let Some(m) = after_refusal(st.as_ref(), &named, &ever, &shadow) { failure = fail(format!("after the refused {}: {}", what, m)); break 'ops; }
         }
         // cheap global invariant after every operation
         match guarded(|| st.bs_ref().len()) {
@@ -1346,6 +1379,37 @@ fn gen_entry_history(r: &mut Rng, spec: &str, salt: u64) -> Value {
     ops.push(json!(["finalize"])); ops.push(json!(["put", rec(r)])); ops.push(json!(["rm", {"i": 3}])); all(&mut ops, 11); ops.push(json!(["iter"])); ops.push(json!(["len"]));
     ops.push(json!(["clear", salt])); ops.push(json!(["put", rec(r)])); ops.push(json!(["hk", salt * 43 + 5])); all(&mut ops, 12); ops.push(json!(["iter"])); ops.push(json!(["len"]));
     json!({"cell": spec, "kind": "history", "ops": ops})
+}
+
+/// Deterministic history of refused operations in the middle of ordinary ones: reads and removals of ids never issued / already
+/// removed / 0 / MAX, a record the stack may refuse (non-empty over ZeroLength, empty over DictZip), writes after `finalize`;
+/// the runner compares the store with the unchanged shadow after each refusal and the history goes on.
+fn gen_refusal_history(spec: &str, salt: u64) -> Value {
+    let zero = base_of(spec).starts_with("zero");
+    let rec = |k: u64| if zero { json!([0, 0, 0]) } else { { let l = [1u64, 9, 30, 64, 200][((salt + k) % 5) as usize]; json!([(salt + k) % 6, l, salt * 7 + k]) } };
+    let odd = if zero { json!([2, 5, salt]) } else { json!([0, 0, 0]) };
+    let mut ops: Vec<Value> = vec![];
+    ops.push(json!(["rm", {"i": 0}])); ops.push(json!(["get", {"raw": 0}]));
+    ops.push(json!(["put", rec(0)])); ops.push(json!(["put", rec(1)])); ops.push(json!(["put", odd.clone()]));
+    ops.push(json!(["get", {"i": 5}])); ops.push(json!(["rm", {"i": 7}])); ops.push(json!(["rm", {"raw": u32::MAX}])); ops.push(json!(["get", {"i": 1}]));
+    ops.push(json!(["put", rec(2)])); ops.push(json!(["rm", {"i": 1}])); ops.push(json!(["rm", {"i": 1}])); ops.push(json!(["get", {"i": 1}])); ops.push(json!(["size", {"i": 1}]));
+    ops.push(json!(["getb", [{"i": 0}, {"i": 9}, {"i": 1}]])); ops.push(json!(["rmb", [{"i": 9}]])); ops.push(json!(["get", {"i": 0}]));
+    ops.push(json!(["batch", [rec(3), rec(4)]])); ops.push(json!(["put", odd.clone()])); ops.push(json!(["rm", {"raw": u32::MAX - 1}])); ops.push(json!(["hk", salt * 13 + 3])); ops.push(json!(["iter"]));
+    ops.push(json!(["reopen"])); ops.push(json!(["rm", {"i": 1}])); ops.push(json!(["has", {"i": 12}])); ops.push(json!(["put", rec(5)])); ops.push(json!(["get", {"i": 2}]));
+    ops.push(json!(["finalize"])); ops.push(json!(["put", rec(6)])); ops.push(json!(["rm", {"i": 0}])); ops.push(json!(["batch", [rec(7)]])); ops.push(json!(["put", odd])); ops.push(json!(["rm", {"i": 40}]));
+    ops.push(json!(["get", {"i": 3}])); ops.push(json!(["put", rec(8)])); ops.push(json!(["iter"])); ops.push(json!(["len"]));
+    json!({"cell": spec, "kind": "history", "ops": ops})
+}
+/// The keyed counterpart: keys beyond the 255-byte limit of the LOUDS strategy, removals of absent ids, writes after finalize.
+fn gen_keyed_refusal(spec: &str, salt: u64) -> Value {
+    let rec = |k: u64| { let l = [1u64, 5, 9, 30][((salt + k) % 4) as usize]; json!([(salt + k) % 6, l, salt * 5 + k]) };
+    let long = |n: usize, b: u8| json!(vec![b; n]);
+    let ops = vec![json!(["putk", long(256, 107), rec(0)]), json!(["rm", {"i": 0}]), json!(["putk", "ab", rec(1)]), json!(["putk", "abc", rec(2)]), json!(["putk", long(300, 97), rec(3)]),
+        json!(["getk", "ab"]), json!(["putk", long(255, 107), rec(4)]), json!(["putk", long(256, 107), rec(5)]), json!(["prefix", "a"]), json!(["rm", {"i": 9}]), json!(["rm", {"raw": u32::MAX}]),
+        json!(["putk", "ab", rec(6)]), json!(["rm", {"i": 0}]), json!(["rm", {"i": 0}]), json!(["getk", "ab"]), json!(["putk", long(1000, 98), rec(7)]), json!(["keys"]), json!(["put", rec(8)]),
+        json!(["hask", long(256, 107)]), json!(["iter"]), json!(["finalize"]), json!(["putk", "zz", rec(9)]), json!(["putk", long(256, 107), rec(10)]), json!(["rm", {"i": 1}]), json!(["getk", "abc"]),
+        json!(["putkb", [["k1", rec(11)]]]), json!(["kprefix", "a"]), json!(["len"])];
+    json!({"cell": spec, "kind": "keyed", "ops": ops})
 }
 
 /// Deterministic history around the sizes at which something switches inside a store (2^12, 2^16, 2^20, the compression
@@ -1814,6 +1878,8 @@ fn run_keyed(cx: &mut Ctx, case: &Value) {
         let mut issued: Vec<RecordId> = vec![];
         for (k, op) in ops.iter().enumerate() {
             let at = |m: String| Some(format!("op #{} {}: {}", k, op, m));
+            // Some(keys): the operation was refused; the store (ids, keys, len) is compared with the unchanged reference at once
+            let mut refused: Option<Vec<Vec<u8>>> = None;
             match op[0].as_str().unwrap_or("") {
                 "putk" | "put" => {
                     let keyed = op[0] == "putk";
@@ -1827,7 +1893,7 @@ fn run_keyed(cx: &mut Ctx, case: &Value) {
                             if keyed { key_of.insert(id, key.clone()); latest.insert(key, id); }
                         }
                         // the LOUDS strategy documents a key limit of 255 bytes: longer keys may be refused (nothing is stored then)
-                        Err(e) => if !finalized && key.len() <= 255 { return at(format!("put refused: {}", e)); },
+                        Err(e) => { if !finalized && key.len() <= 255 { return at(format!("put refused: {}", e)); } refused = Some(if keyed { vec![key.clone()] } else { vec![] }); }
                     }
                 }
                 "putkb" => {
@@ -1841,13 +1907,14 @@ fn run_keyed(cx: &mut Ctx, case: &Value) {
                                 shadow.insert(*id, data); issued.push(*id); key_of.insert(*id, key.clone()); latest.insert(key, *id);
                             }
                         }
-                        Err(e) => if !finalized && !ents.is_empty() { return at(format!("put_batch_with_keys refused: {}", e)); },
+                        // (a refused batch is judged on the ids and keys the reference knows; the batch is not required to be atomic)
+                        Err(e) => { if !finalized && !ents.is_empty() { return at(format!("put_batch_with_keys refused: {}", e)); } if finalized { refused = Some(vec![]); } }
                     }
                 }
                 "rm" => {
                     let id = resolve(&op[1], &issued);
                     let live = shadow.contains_key(&id);
-                    match st.remove(id) { Ok(()) => { shadow.remove(&id); } Err(e) => if live && !finalized { return at(format!("remove({}) of a live record failed: {}", id, e)); } }
+                    match st.remove(id) { Ok(()) => { shadow.remove(&id); } Err(e) => { if live && !finalized { return at(format!("remove({}) of a live record failed: {}", id, e)); } refused = Some(vec![]); } }
                 }
                 "hask" => {
                     let key = key_bytes(&op[1]);
@@ -1913,6 +1980,27 @@ fn run_keyed(cx: &mut Ctx, case: &Value) {
                     }
                 }
                 _ => {}
+            }
+            if let Some(rkeys) = refused {
+                // nothing changed: every id issued so far, ids never issued, every key with a live latest record, the refused key itself
+                let mut ids = issued.clone(); ids.push(issued.len() as u32 + 5); ids.push(u32::MAX);
+                for id in ids { if let Some(m) = probe(&st, id, &shadow) { return at(format!("after the refused operation: {}", m)); } }
+                for (kk, id) in &latest {
+                    if !shadow.contains_key(id) { continue; }
+                    match st.get_by_key(kk) {
+                        Ok(d) => if d != shadow[id] { return at(format!("after the refused operation: get_by_key({:?}) returned {} but the latest record put under the key is {}", String::from_utf8_lossy(kk), hex(&d), hex(&shadow[id]))); },
+                        Err(e) => return at(format!("after the refused operation: get_by_key({:?}) failed ({}) but record {} put under the key is live", String::from_utf8_lossy(kk), e, id)),
+                    }
+                    if !st.contains_key(kk) { return at(format!("after the refused operation: contains_key({:?}) is false but record {} is live", String::from_utf8_lossy(kk), id)); }
+                }
+                for rk in &rkeys {
+                    let any_live = key_of.iter().any(|(id, kk)| kk == rk && shadow.contains_key(id));
+                    if !any_live && st.contains_key(rk) { return at(format!("after the refused put_with_key: contains_key is true for the refused {}-byte key", rk.len())); }
+                    if !latest.contains_key(rk) { if let Ok(d) = st.get_by_key(rk) { return at(format!("after the refused put_with_key: get_by_key of the refused {}-byte key returned {} bytes", rk.len(), d.len())); } }
+                }
+                let mut got: Vec<RecordId> = st.iter_ids().collect(); got.sort();
+                let mut want: Vec<RecordId> = shadow.keys().copied().collect(); want.sort();
+                if got != want { return at(format!("after the refused operation: iter_ids lists {:?} but the live ids are {:?}", got, want)); }
             }
             if st.len() != shadow.len() { return at(format!("afterwards len() = {} but {} records are live", st.len(), shadow.len())); }
         }
@@ -2087,6 +2175,15 @@ pub fn run(args: &Args) {
         let mut all_cells: Vec<&str> = cells.clone();
         all_cells.extend_from_slice(&HISTORY_CELLS_BREADTH);
         for spec in all_cells { let c = gen_entry_history(&mut rng, spec, salt + args.seed % 13); run_case(&mut cx, &c, false); cx.sum.dist("entry_point_histories"); }
+    }
+    // 2b''. refused operations in the middle of a history, per stack: the store is compared with the unchanged shadow after each
+    for salt in 0..(if args.thorough { 6u64 } else { 1 }) {
+        let mut all_cells: Vec<&str> = cells.clone();
+        all_cells.extend_from_slice(&HISTORY_CELLS_BREADTH);
+        for spec in all_cells {
+            let c = if spec.starts_with("nlt_keyed") { gen_keyed_refusal(spec, salt + args.seed % 11) } else { gen_refusal_history(spec, salt + args.seed % 11) };
+            run_case(&mut cx, &c, false); cx.sum.dist("refusal_histories");
+        }
     }
     // 2c. deterministic histories with records of exactly the sizes at which something switches
     for (i, (spec, sizes)) in THRESHOLD_CELLS.iter().enumerate() {
@@ -2282,6 +2379,11 @@ pub fn run(args: &Args) {
         let spec = ["nlt_keyed:default+", "nlt_keyed:perf+", "nlt_keyed:mem+", "nlt_keyed:sec+", "nlt_keyed:cache2+", "nlt_keyed:nocache+"][round % 6];
         let c = gen_keyed(&mut rng, spec);
         run_case(&mut cx, &c, false);
+    }
+    // 5c. refused keyed operations (over-long keys, absent ids, writes after finalize) in the middle of a keyed history
+    for (i, spec) in ["nlt_keyed:default+", "nlt_keyed:perf+", "nlt_keyed:mem+", "nlt_keyed:sec+", "nlt_keyed:cache2+", "nlt_keyed:nocache+"].iter().enumerate() {
+        let c = gen_keyed_refusal(spec, i as u64 + args.seed % 11);
+        run_case(&mut cx, &c, false); cx.sum.dist("refusal_histories_keyed");
     }
     // 6. small-record histories on every stack that has a mechanism model: each becomes a Coq case of the whole stack
     //    (observations of every operation, what the innermost store ends up holding, the directory of a PlainBlobStore)
